@@ -6,6 +6,9 @@ CONSTANTS
   MaxDatagrams = 1
   CIAs <- CIAs1
   CHosts <- CHosts1
+  EpochLen = 1
+  MaxClock = 0
+  Grace = 0
   KeepPathType = FALSE
   Modes <- ModesAll
   ULs <- ULsAll
